@@ -96,6 +96,11 @@ func modeRoute(c *Ctx) {
 	for _, op := range c.Ops {
 		if op.Spec != nil && len(c.Doc.EffectiveSecurity(*op.Spec)) > 0 {
 			opSecured[op.Key] = true
+			for _, alt := range c.Doc.EffectiveSecurity(*op.Spec) {
+				if len(alt) == 0 {
+					opSecured[op.Key] = false // an alternative that asks for nothing
+				}
+			}
 		}
 	}
 	hasCORS := c.Case.Cors
